@@ -311,18 +311,29 @@ func (in *inst) CheckState(exp *tla.Value, call, tr *tla.Value) []engine.Div {
 // ------------------------------------------------------------------------------------------
 // adapter "oserr": real system calls below a temp directory
 
-type OSAdapter struct{ Prop, PropErr string }
+// OSAdapter: failing system calls through os.FS. Unrooted: the file system starts as NewFS() itself (no Sub root at
+// all) and the caller's names are the fixture's names below "/", until the first Sub call roots it.
+type OSAdapter struct {
+	Prop, PropErr string
+	Unrooted      bool
+}
 
-func (a *OSAdapter) Name() string { return "oserr" }
+func (a *OSAdapter) Name() string {
+	if a.Unrooted {
+		return "oserr0"
+	}
+	return "oserr"
+}
 func (a *OSAdapter) New(init *tla.Value) (engine.Instance, error) {
 	return &osInst{a: a}, nil
 }
 
 type osInst struct {
-	a     *OSAdapter
-	base  string
-	fs    *hos.FS
-	dirty bool
+	a      *OSAdapter
+	base   string
+	prefix string // names are below this path while the file system has no root of its own
+	fs     *hos.FS
+	dirty  bool
 }
 
 func (in *osInst) Dirty() bool { return in.dirty }
@@ -372,6 +383,17 @@ func (in *osInst) mkFixture() error {
 
 func (in *osInst) Apply(call *tla.Value) any { return in.do(call) }
 
+// pre turns a name of the model into the caller's name while the file system is unrooted
+func (in *osInst) pre(name string) string {
+	switch {
+	case in.prefix == "":
+		return name
+	case name == ".":
+		return in.prefix
+	}
+	return in.prefix + "/" + name
+}
+
 var mutating = map[string]bool{"mkdir": true, "mkdirall": true, "remove": true, "removeall": true, "create": true,
 	"writefile": true, "rename": true, "symlink": true}
 
@@ -382,7 +404,7 @@ func (in *osInst) do(call *tla.Value) (o Obs) {
 		}
 	}()
 	op := call.F("op").S
-	name := joinToks(call.F("p"), "/")
+	name := in.pre(joinToks(call.F("p"), "/"))
 	o.In = name
 	fs := in.fs
 	withFile := func(fn func(f hackpadfs.File) error) error {
@@ -398,6 +420,10 @@ func (in *osInst) do(call *tla.Value) (o Obs) {
 		if err := in.mkFixture(); err != nil {
 			panic(err)
 		}
+		if in.a.Unrooted {
+			in.fs, in.prefix = hos.NewFS(), strings.TrimPrefix(in.base, "/")
+			break
+		}
 		sub, err := hos.NewFS().Sub(strings.TrimPrefix(in.base, "/"))
 		if err != nil {
 			panic(err)
@@ -407,7 +433,7 @@ func (in *osInst) do(call *tla.Value) (o Obs) {
 		sub, err := fs.Sub(name)
 		o.Err = err
 		if err == nil {
-			in.fs = sub.(*hos.FS)
+			in.fs, in.prefix = sub.(*hos.FS), ""
 		}
 	case "stat":
 		_, o.Err = fs.Stat(name)
@@ -447,10 +473,10 @@ func (in *osInst) do(call *tla.Value) (o Obs) {
 	case "writefile":
 		o.Err = fs.WriteFile(name, []byte("x"), 0644)
 	case "rename":
-		o.In2 = joinToks(call.F("q"), "/")
+		o.In2 = in.pre(joinToks(call.F("q"), "/"))
 		o.Err = fs.Rename(name, o.In2)
 	case "symlink":
-		o.In2 = joinToks(call.F("q"), "/")
+		o.In2 = in.pre(joinToks(call.F("q"), "/"))
 		o.Err = fs.Symlink(name, o.In2)
 	case "fread":
 		o.Err = withFile(func(f hackpadfs.File) error {
@@ -599,7 +625,7 @@ func (in *osInst) CheckState(exp *tla.Value, call, tr *tla.Value) []engine.Div {
 			op, b = call.F("op").S, tr.F("b").S
 			in.dirty = true
 		}
-		return []engine.Div{{Prop: in.a.Prop, Sig: fmt.Sprintf("oserr %s %s state %s", op, b, what), Detail: detail}}
+		return []engine.Div{{Prop: in.a.Prop, Sig: fmt.Sprintf("%s %s %s state %s", in.a.Name(), op, b, what), Detail: detail}}
 	}
 	if exp.F("goos").S == "none" {
 		if in.fs != nil {
@@ -614,6 +640,9 @@ func (in *osInst) CheckState(exp *tla.Value, call, tr *tla.Value) []engine.Div {
 	want := strings.TrimPrefix(in.base, "/")
 	if r := joinToks(exp.F("root"), "/"); r != "" {
 		want += "/" + r
+	}
+	if in.prefix != "" {
+		want = "" // still NewFS() itself: the fixture's path is part of every name, not of the root
 	}
 	if vol != "" || root != want {
 		return fail("exp=root-joined got=root-differs", fmt.Sprintf("root %q want %q", root, want))
